@@ -88,7 +88,7 @@ class BoundedCtx:
             return True
         return False
 
-    def pmap(self, func: Callable, items: list, procs: int = 16, batch: int = 64):
+    def pmap(self, func: Callable, items: list, procs: int = 16, batch: int = 64, job_timeout: float = 4.0):
         """Evaluate func over items on a fork pool (func must be a module-level function); yields (item, result)
         in order and stops submitting new batches once the tier's time budget is used up."""
         import multiprocessing as mp
@@ -96,13 +96,23 @@ class BoundedCtx:
         if not items:
             return
         ctx = mp.get_context('fork')
-        with ctx.Pool(min(procs, len(items))) as pool:
+        runaway = 0
+        with ctx.Pool(min(procs, len(items)), initializer=_worker_init) as pool:
             for i in range(0, len(items), batch):
                 if self.out_of_time():
                     return
                 chunk = items[i:i + batch]
-                for it, res in zip(chunk, pool.map(func, chunk, chunksize=max(1, len(chunk) // (procs * 2)))):
+                packed = [(func, it, job_timeout) for it in chunk]
+                for it, res in zip(chunk, pool.imap(_call_with_timeout, packed,
+                                                    chunksize=max(1, min(64, len(chunk) // (procs * 2))))):
                     yield it, res
+                    if isinstance(res, str) and res.startswith(('TIMEOUT:', 'MEMORY:')):
+                        runaway += 1
+                        if runaway >= 3:      # the code under test loops: three witnesses are enough
+                            self.exhaustive = False
+                            self.notes.append('stopped after three non-terminating inputs')
+                            pool.terminate()
+                            return
 
     def case(self, desc: Any, nontrivial: bool = True) -> None:
         self.evaluations += 1
@@ -117,6 +127,38 @@ class BoundedCtx:
             return
         self.violations.append(Violation(self.prop, check or self.name, key, what,
                                          {'check': self.name, 'input': input_}))
+
+
+class JobTimeout(Exception):
+    pass
+
+
+def _alarm(signum, frame):
+    raise JobTimeout()
+
+
+def _call_with_timeout(packed):
+    """Run func(item) in a pool worker under a wall-clock limit (the real code under test may loop forever)."""
+    import signal
+    func, item, seconds = packed
+    signal.signal(signal.SIGALRM, _alarm)
+    signal.setitimer(signal.ITIMER_REAL, seconds)
+    try:
+        return func(item)
+    except JobTimeout:
+        return f'TIMEOUT: the real code did not finish within {seconds} s on this input (non-termination)'
+    except MemoryError:
+        return 'MEMORY: the real code exhausted the 6 GiB worker memory limit on this input (unbounded allocation)'
+    finally:
+        signal.setitimer(signal.ITIMER_REAL, 0)
+
+
+def _worker_init():
+    import resource
+    try:
+        resource.setrlimit(resource.RLIMIT_AS, (6 << 30, 6 << 30))
+    except (ValueError, OSError):
+        pass
 
 
 def minimise(seq: list, fails: Callable[[list], Any]) -> list:
